@@ -290,6 +290,9 @@ def apply_contract(ex, c, fi, args, kwargs, st, k, ctl, node):
                 return k(st, v)
     # 2. havoc what the callee may modify, allocate the result
     post = havoc_modifies(ex, c, pre.env, st, st)
+    if getattr(c, "modifies_fs", False):
+        ex.fs_term(st)
+        post = post.with_heap(("$", "fs"), cx.fresh_sort("FS", "(Array String Opt_Str)"))
     if c.allocates:
         post = havoc_allocation(ex, c, st, post, pre)
     if c.ret == T.NONE:
@@ -313,6 +316,9 @@ def apply_contract(ex, c, fi, args, kwargs, st, k, ctl, node):
     if not st.spec:
         for R in c.raises:
             se = havoc_modifies(ex, c, pre.env, st, st)
+            if getattr(c, "modifies_fs", False):
+                ex.fs_term(st)
+                se = se.with_heap(("$", "fs"), cx.fresh_sort("FS", "(Array String Opt_Str)"))
             conds = []
             if R.when is not None:
                 conds.append(ex.spec_bool(R.when, pre))
@@ -406,6 +412,10 @@ def verify_contract(ex, c):
         env_body[fnames[0]] = newobj
     else:
         env_body = dict(env)
+    if fi.node.args.kwarg is not None:
+        # **kw of the verified function: an opaque bag of keyword arguments that can only be passed on
+        env[fi.node.args.kwarg.arg] = PyV("kwargs", None)
+        env_body[fi.node.args.kwarg.arg] = env[fi.node.args.kwarg.arg]
     st0 = State(dict(env), {}, fn=fi)
     pre = st0.copy(spec=True)
     for ln, le in c.let:
@@ -441,6 +451,8 @@ def verify_contract(ex, c):
                     key = (d[0], f)
                 mod.setdefault(key, []).append(obj)
         out = []
+        if ("$", "fs") in s.heap and not getattr(c, "modifies_fs", False) and s.heap[("$", "fs")] != "FS@0":
+            out.append((("$", "fs"), EQ(s.heap[("$", "fs")], "FS@0")))      # the function may not change the file system
         for key, term in s.heap.items():
             if key[0] == "$":
                 continue
